@@ -13,8 +13,8 @@ PROPERTIES = ["C17"]
 MANIFEST = {
     "C17": {
         "technique": "Lean 4 proof (model of Sha256.cpp/Sha256.hpp over constants and macro bodies re-translated from the current sources on every run, proved equal to FIPS 180-4 / RFC 2104 written independently) + differential correspondence real code vs model vs Python hashlib/hmac",
-        "text": "Kernel-checked theorems for ALL messages, chunkings and keys (no size bound other than the standard's own 2^64-bit limit): the generated K/H0 are the constants of the standard (defined as cube/square roots of the first primes, roots proved exact), the generated macro bodies S0 S1 s0 s1 Ch Maj are the functions of FIPS 4.1.2, one Transform call (rolling 16-word window, rotating register index, macro R) equals the FIPS compression function, update/finalize over any list of chunks equals the FIPS digest of the concatenation (one- and two-block padding cases), the hasher is reusable after construction/finalize/reset, Sha256::hmac equals RFC 2104 for keys shorter than, equal to and longer than the block size.  Tie to the current sources on every run: tables, header constants and macro bodies are re-translated (g++ -E -dD + expression translator) and all theorems are re-checked over them; the hand-written control flow of the model is executed against the real code (ASan/UBSan) on identical op lines - all lengths 0..300 x all 2-way splits, lengths 0..70 x all 3-way splits, sampled 3-way splits with interleaved reset/finalize, lengths to 70000, keys 0..200 (quick tier: seed-chosen slices) - and every digest is also compared with Python hashlib/hmac; two further streams pass empty inputs as (nullptr, 0) and preset `count` (white box) to multiples of 64 up to 2^64-64 so that the upper bytes of the 64-bit length field are exercised.",
-        "note": "Trusted: Lean kernel + the three standard axioms; the translator tools/gen_sha.py (small C-expression translator for the macro bodies; it refuses what it cannot translate faithfully, e.g. unsequenced side effects or _SHA256_UNROLL2; its output is exercised by the correspondence run); the hand translation of the control flow of update/finalize/Transform/WriteByteBlock/hash/hmac into Model.lean (validated by the correspondence run, not proved); my transcription of FIPS 180-4 / RFC 2104 in Spec.lean (kernel-evaluated on the NIST 'abc', empty, two-block vectors and RFC 4231 case 1, and compared with Python hashlib/hmac through the driver on every run: tests).  Memory abstraction: C arrays are Lean lists; every write goes through a checked `wr` that destroys the array on an out-of-range index, every read (state, buffer, hashKey, and T/W/K/data inside the translated macros) is recorded in a ghost flag `ok` (index inside the array) that the model carries and the driver reports as FAULT; the theorems hold for all inputs and include ok = true, so out-of-range reads and writes are excluded in the model (the harness additionally runs the real code under ASan with the hasher in an exactly sized heap block); Transform's uninitialised W[16] is proved irrelevant (transform_ignores_uninitialised_W), a fresh hasher's indeterminate buffer is covered by `Reusable` (arbitrary buffer content).  S0 S1 s0 s1 are proved by rfl when written like the standard and otherwise bit by bit (32 positions), Ch/Maj bit by bit: equivalent rewrites of the macros (rotate left, helper macros, operand order) keep the proofs, a wrong constant breaks them.  Not modelled: the _SHA256_UNROLL2 variant (translator refuses it).  Hypothesis of the theorems: fewer than 2^61 bytes per digest (= the 2^64-bit limit of FIPS 180-4; beyond it count<<3 wraps).  No theorem is partial; there is no OPEN statement.",
+        "text": "Kernel-checked theorems for ALL messages, chunkings and keys (no size bound other than the standard's own 2^64-bit limit): the generated K/H0 are the constants of the standard (defined as cube/square roots of the first primes, roots proved exact), the generated macro bodies S0 S1 s0 s1 Ch Maj are the functions of FIPS 4.1.2, one Transform call (rolling 16-word window, rotating register index, macro R) equals the FIPS compression function, update/finalize over any list of chunks equals the FIPS digest of the concatenation (one- and two-block padding cases), the hasher is reusable after construction/finalize/reset (no length hypothesis for the reusability itself; digests are stated below the standard's 2^61-byte limit), Sha256::hmac equals RFC 2104 for keys shorter than, equal to and longer than the block size.  Tie to the current sources on every run: tables, header constants and macro bodies are re-translated (g++ -E -dD + expression translator) and all theorems are re-checked over them; the hand-written control flow of the model is executed against the real code (ASan/UBSan) on identical op lines - all lengths 0..300 x all 2-way splits, lengths 0..70 x all 3-way splits, sampled 3-way splits with interleaved reset/finalize, lengths to 70000, keys 0..200 (quick tier: seed-chosen slices) - and every digest is also compared with Python hashlib/hmac; two further streams pass empty inputs as (nullptr, 0) and preset `count` (white box) to multiples of 64 up to 2^64-64 so that the upper bytes of the 64-bit length field are exercised.",
+        "note": "Trusted: Lean kernel + the three standard axioms; the translator tools/gen_sha.py (small C-expression translator for the macro bodies; it refuses what it cannot translate faithfully, e.g. unsequenced side effects or _SHA256_UNROLL2; its output is exercised by the correspondence run); the hand translation of the control flow of update/finalize/Transform/WriteByteBlock/hash/hmac into Model.lean (validated by the correspondence run, not proved); my transcription of FIPS 180-4 / RFC 2104 in Spec.lean (kernel-evaluated on the NIST 'abc', empty, two-block vectors and RFC 4231 cases 1 (short key) and 6 (131-byte key, hash-key-first branch), and compared with Python hashlib/hmac through the driver on every run: tests).  Memory abstraction: C arrays are Lean lists; every write goes through a checked `wr` that destroys the array on an out-of-range index, every read (state, buffer, hashKey, and T/W/K/data inside the translated macros) is recorded in a ghost flag `ok` (index inside the array) that the model carries and the driver reports as FAULT; the theorems hold for all inputs and include ok = true, so out-of-range reads and writes are excluded in the model (the harness additionally runs the real code under ASan with the hasher in an exactly sized heap block); Transform's uninitialised W[16] is proved irrelevant (transform_ignores_uninitialised_W), a fresh hasher's indeterminate buffer is covered by `Reusable` (arbitrary buffer content).  S0 S1 s0 s1 are proved by rfl when written like the standard and otherwise bit by bit (32 positions), Ch/Maj bit by bit: equivalent rewrites of the macros (rotate left, helper macros, operand order) keep the proofs, a wrong constant breaks them.  Not modelled: the _SHA256_UNROLL2 variant (translator refuses it).  Hypothesis of the theorems: fewer than 2^61 bytes per digest (= the 2^64-bit limit of FIPS 180-4; beyond it count<<3 wraps).  No theorem is partial; there is no OPEN statement.",
         "design_ref": "DESIGN.md 3/C17",
     }
 }
